@@ -23,6 +23,9 @@ Family == {
   [id |-> "relevant",       segs |-> <<W("relevant")>>],
   [id |-> "bind_relevant",  segs |-> <<W("bind"), W("relevant")>>],
   [id |-> "bind_foo",       segs |-> <<W("bind"), W("foo")>>],
+  [id |-> "cmsg",           segs |-> <<W("constraint_message")>>],
+  [id |-> "cmsg_fr",        segs |-> <<W("constraint_message"), W("fr")>>],
+  [id |-> "bind_jr_cmsg",   segs |-> <<W("bind"), Seg("jr", "constraintMsg", "constraintmsg", FALSE, FALSE)>>],
   [id |-> "mycol",          segs |-> <<W("mycol")>>] }
 Header(f, style) == [segs |-> f.segs, seps |-> [i \in 1..(Len(f.segs) - 1) |-> IF style = "dbl" THEN "::" ELSE ":"]]
 
